@@ -470,7 +470,7 @@ func TestVerif(t *testing.T) {
 		t.Fatalf("harness punycode encoder is wrong")
 	}
 
-	batches := r.N(200, 20000)
+	batches := r.N(800, 20000)
 	const per = 1000
 	for b := 0; b < batches; b++ {
 		r.Run(b, fmt.Sprintf("batch-%d", b), func(c *rep.Case) {
